@@ -1463,7 +1463,7 @@ func TestVerifC26RPCSize(t *testing.T) { c26RunUnit(t, "rpcsize", true) }
 func c26RunUnit(t *testing.T, unit string, sizeHeavy bool) {
 	r := verifkit.Start(t, "C26", unit)
 	defer r.Finish()
-	r.SetRule("one case = fresh transport.Server on loopback TCP + transport.Client (pool 1..4) over fault conns; 2..64 callers issue 400..1800 Calls whose payload carries a run-unique id and the handler behaviour; request, response and error-text lengths are drawn from classes on every buffer-pool slab boundary (512, 4096, 65536, 1 MiB, each -3..+2), 0/1/2, 100 KiB, 512 KiB and the frame limit (1 or 2 MiB, -3..+2, over-limit included), content keyed by the id over the whole length; callers keep every returned payload (<= 40 MiB per case) and re-verify it after 1..300 further calls completed and again after the case has shut down (echo f(id) now/after delay, id-carrying error, answer only after the caller gave up, answer after N further calls completed, never); callers use long/none/short deadlines, pre-cancelled ctx, timer cancel, cancel-when-handler-started; chaos at PRNG progress points: RST, half-close read/write, mid-frame stall (then continue or reset) in either direction, ClosePeer (also concurrent); per-op PRNG delays/fragmentation/resets inside the conn; config (service concurrency/queue/timeout, batch limits, queue limits, dial failures/cooldown) from the case PRNG. Thorough tier: four marathon cases (72k calls on one connection) separate a given-up call from its late answer by >65k request ids. Non-trivial case = >=1 call gave up by timeout/cancel AND >=1 link loss (reset/half-close) happened while >=8 calls were in flight AND >=1 call succeeded; distinct by abstract shape (sizes, fault/outcome buckets).")
+	r.SetRule("one case = fresh transport.Server on loopback TCP + transport.Client (pool 1..4) over fault conns; 2..64 callers issue 400..1800 Calls whose payload carries a run-unique id and the handler behaviour; request, response and error-text lengths are drawn from classes on every buffer-pool slab boundary (512, 4096, 65536, 1 MiB, each -3..+2), 0/1/2, 100 KiB, 512 KiB and the frame limit (1 or 2 MiB, -3..+2, over-limit included), content keyed by the id over the whole length; callers keep every returned payload (<= 40 MiB per case) and re-verify it after 1..300 further calls completed and again after the case has shut down (echo f(id) now/after delay, id-carrying error, answer only after the caller gave up, answer after N further calls completed, never); callers use long/none/short deadlines, pre-cancelled ctx, timer cancel, cancel-when-handler-started; chaos at PRNG progress points: RST, half-close read/write, mid-frame stall (then continue or reset) in either direction, ClosePeer (also concurrent); per-op PRNG delays/fragmentation/resets inside the conn; config (service concurrency/queue/timeout, batch limits, queue limits, dial failures/cooldown) from the case PRNG. Thorough tier: two marathon cases (72k calls on one connection) separate a given-up call from its late answer by >65k request ids. Non-trivial case = >=1 call gave up by timeout/cancel AND >=1 link loss (reset/half-close) happened while >=8 calls were in flight AND >=1 call succeeded; distinct by abstract shape (sizes, fault/outcome buckets).")
 	r.Assume("loopback TCP delivers bytes unmodified; the fault conn only delays, fragments, truncates-then-resets, never alters bytes")
 	r.Assume("a success payload equal to f(id) can only originate from the handler invocation for id (f is injective, 128-bit tagged)")
 
@@ -1472,11 +1472,11 @@ func c26RunUnit(t *testing.T, unit string, sizeHeavy bool) {
 	if runtime.GOMAXPROCS(0) > 8 {
 		defer runtime.GOMAXPROCS(runtime.GOMAXPROCS(8))
 	}
-	nCases := r.N(24, 300)
+	nCases := r.N(24, 200)
 	marathonEvery := 80 // thorough tier only: marathon cases 40, 120, 200...
 	stream := uint64(0)
 	if sizeHeavy {
-		nCases = r.N(40, 400)
+		nCases = r.N(40, 250)
 		marathonEvery = 1 << 30
 		stream = 77
 	}
